@@ -1,7 +1,10 @@
 package main
 
 import (
+	"errors"
 	"fmt"
+	"io"
+	"strings"
 
 	d128 "github.com/woodsbury/decimal128"
 )
@@ -44,6 +47,34 @@ func init() {
 			e["err"] = "other"
 		}
 		setRes(e, "r", d)
+	}
+	// fmt.Fscan(stream, &d1, .., &dk) on a rune-scanning reader: how many were stored, the error class, every receiver
+	// afterwards (all start as "prev"), and how many bytes of the stream are left unread
+	execTable["ScanStream"] = func(e Ev) {
+		rd := strings.NewReader(string(e.bytes("s")))
+		k := e.int("k")
+		ds := make([]d128.Decimal, k)
+		ptrs := make([]any, k)
+		for i := range ds {
+			ds[i] = e.dec("prev")
+			ptrs[i] = &ds[i]
+		}
+		n, err := fmt.Fscan(rd, ptrs...)
+		e["n"] = n
+		switch {
+		case err == nil:
+			e["err"] = "none"
+		case errors.Is(err, io.ErrUnexpectedEOF) || errors.Is(err, io.EOF):
+			e["err"] = "eof"
+		default:
+			e["err"] = errClass(err)
+		}
+		rs := make([][]int, k)
+		for i := range ds {
+			rs[i] = ints(bitsOf(ds[i]))
+		}
+		e["rs"] = rs
+		e["rem"] = rd.Len()
 	}
 	execTable["Misc"] = func(e Ev) {
 		switch e.str("f") {
